@@ -82,15 +82,118 @@ impl Tok {
     fn byte_at(&self, i: usize) -> (r: u8)
         requires !self.empty(), i == 0,
     { unimplemented!() }
-    /// `s.bytes().any(..)` / `s.chars().all(..)` with some predicate: nothing known about the answer
+    /// `s.bytes().any(..)` / `s.bytes().all(..)` with some predicate: nothing known about the answer
     #[verifier::external_body]
     fn any_char_unknown(&self) -> (b: bool) { unimplemented!() }
-    /// `!s.chars().next().unwrap_or(' ').is_alphabetic() || s.chars().any(|c| !c.is_alphanumeric())`
-    /// (the empty string is a bad identifier: ' ' is not alphabetic; unwrap_or cannot panic)
+    /// the characters of the text, in order (`s.chars()`)
+    pub uninterp spec fn text(&self) -> Seq<char>;
+    /// `s.chars().collect::<Vec<char>>()`: the characters; "" is the text without characters
     #[verifier::external_body]
-    fn bad_ident(&self) -> (b: bool)
-        ensures self.empty() ==> b,
+    fn char_vec(&self) -> (v: Vec<char>)
+        ensures v@ == self.text(), self.empty() == (self.text().len() == 0),
     { unimplemented!() }
+}
+
+// ---------------------------------------------------------------------------------------------
+// `s.chars()` idioms (real contracts, VERIFIED over `char_vec`) and the `char` classification methods
+// (uninterpreted predicates + the facts of Unicode that matter here, see `char_facts`).
+// ---------------------------------------------------------------------------------------------
+/// `s.chars().next()`: the first character, None for ""
+fn chars_first(t: &Tok) -> (r: Option<char>)
+    ensures
+        t.empty() == (t.text().len() == 0),
+        t.text().len() == 0 ==> r is None,
+        t.text().len() > 0 ==> r == Some(t.text()[0]),
+{
+    let v = t.char_vec();
+    if v.len() > 0 { Some(v[0]) } else { None }
+}
+/// `s.chars().any(f)`: true iff f answers true for some character (std stops at the first such character; f has no
+/// effects here, so the calls it does not make cannot be told apart)
+fn chars_any<F: Fn(char) -> bool>(t: &Tok, f: F) -> (r: bool)
+    requires forall|c: char| f.requires((c,)),
+    ensures
+        t.empty() == (t.text().len() == 0),
+        r ==> exists|i: int| 0 <= i < t.text().len() && f.ensures((#[trigger] t.text()[i],), true),
+        !r ==> forall|i: int| 0 <= i < t.text().len() ==> f.ensures((#[trigger] t.text()[i],), false),
+{
+    let v = t.char_vec();
+    let mut k: usize = 0;
+    while k < v.len()
+        invariant k <= v.len(), v@ == t.text(), t.empty() == (t.text().len() == 0),
+            forall|i: int| 0 <= i < k ==> f.ensures((#[trigger] t.text()[i],), false),
+            forall|c: char| f.requires((c,)),
+        decreases v.len() - k,
+    {
+        if f(v[k]) { return true; }
+        k = k + 1;
+    }
+    false
+}
+/// `s.chars().all(f)`: true iff f answers true for every character (true for "")
+fn chars_all<F: Fn(char) -> bool>(t: &Tok, f: F) -> (r: bool)
+    requires forall|c: char| f.requires((c,)),
+    ensures
+        t.empty() == (t.text().len() == 0),
+        r ==> forall|i: int| 0 <= i < t.text().len() ==> f.ensures((#[trigger] t.text()[i],), true),
+        !r ==> exists|i: int| 0 <= i < t.text().len() && f.ensures((#[trigger] t.text()[i],), false),
+{
+    let v = t.char_vec();
+    let mut k: usize = 0;
+    while k < v.len()
+        invariant k <= v.len(), v@ == t.text(), t.empty() == (t.text().len() == 0),
+            forall|i: int| 0 <= i < k ==> f.ensures((#[trigger] t.text()[i],), true),
+            forall|c: char| f.requires((c,)),
+        decreases v.len() - k,
+    {
+        if !f(v[k]) { return false; }
+        k = k + 1;
+    }
+    true
+}
+/// Unicode `Alphabetic` / numeric (Nd, Nl, No) properties: uninterpreted
+pub uninterp spec fn is_alpha(c: char) -> bool;
+pub uninterp spec fn is_numeric(c: char) -> bool;
+pub open spec fn is_alnum(c: char) -> bool { is_alpha(c) || is_numeric(c) }
+pub open spec fn ascii_letter(c: char) -> bool { ('a' <= c && c <= 'z') || ('A' <= c && c <= 'Z') }
+pub open spec fn ascii_digit(c: char) -> bool { '0' <= c && c <= '9' }
+pub open spec fn ascii_letter_r(c: &char) -> bool { ascii_letter(*c) }
+pub open spec fn ascii_digit_r(c: &char) -> bool { ascii_digit(*c) }
+pub open spec fn ascii_alnum_r(c: &char) -> bool { ascii_letter(*c) || ascii_digit(*c) }
+#[verifier::when_used_as_spec(is_alpha)]
+pub assume_specification [char::is_alphabetic] (c: char) -> (b: bool) ensures b == is_alpha(c);
+#[verifier::when_used_as_spec(is_numeric)]
+pub assume_specification [char::is_numeric] (c: char) -> (b: bool) ensures b == is_numeric(c);
+/// std: `self.is_alphabetic() || self.is_numeric()`
+#[verifier::when_used_as_spec(is_alnum)]
+pub assume_specification [char::is_alphanumeric] (c: char) -> (b: bool) ensures b == is_alnum(c);
+#[verifier::when_used_as_spec(ascii_digit_r)]
+pub assume_specification [char::is_ascii_digit] (c: &char) -> (b: bool) ensures b == ascii_digit(*c);
+#[verifier::when_used_as_spec(ascii_letter_r)]
+pub assume_specification [char::is_ascii_alphabetic] (c: &char) -> (b: bool) ensures b == ascii_letter(*c);
+#[verifier::when_used_as_spec(ascii_alnum_r)]
+pub assume_specification [char::is_ascii_alphanumeric] (c: &char) -> (b: bool) ensures b == (ascii_letter(*c) || ascii_digit(*c));
+/// the facts about the uninterpreted classes that matter (all true of Unicode): an ASCII letter is alphabetic (hence
+/// alphanumeric) and not numeric; an ASCII digit is numeric (hence alphanumeric) and NOT alphabetic; the blank and the
+/// underscore are neither
+pub open spec fn char_facts() -> bool {
+    &&& forall|c: char| ascii_letter(c) ==> #[trigger] is_alpha(c)
+    &&& forall|c: char| ascii_letter(c) ==> !#[trigger] is_numeric(c)
+    &&& forall|c: char| ascii_digit(c) ==> #[trigger] is_numeric(c)
+    &&& forall|c: char| ascii_digit(c) ==> !#[trigger] is_alpha(c)
+    &&& !is_alpha(' ') && !is_numeric(' ') && !is_alpha('_') && !is_numeric('_')
+}
+#[verifier::external_body]
+pub proof fn char_class_facts() ensures char_facts() { }
+
+/// the names the schema generator emits (unit asql_gen `extra_columns_named_standard_then_numbered`: `table bed`, the
+/// standard BED names `name`, `thickStart`, .. then `field16`, `field17`, ..) and UCSC-style `name2`: an ASCII letter,
+/// then ASCII letters and digits.  C19 "parses every schema the generator emits": `InvalidDeclareName` -- the one error
+/// the parser has for a NAME -- is never reported for such a name, be it a table name, a type name or a field name.
+/// (The underscore is left out: the declaration-name rule of /repo refuses it, and the generator never emits it.)
+pub open spec fn generator_style_name(s: Seq<char>) -> bool {
+    &&& s.len() > 0 && ascii_letter(s[0])
+    &&& forall|i: int| 0 <= i < s.len() ==> ascii_letter(#[trigger] s[i]) || ascii_digit(s[i])
 }
 
 // ---------------------------------------------------------------------------------------------
@@ -268,9 +371,14 @@ fn parse(parser: &mut VParser) -> (r: Result<Self, ParseError>)
             final(parser).pos() >= old(parser).pos(),
             
             r is Ok ==> final(parser).pos() > old(parser).pos(),
+            
+            r matches Err(ParseError::InvalidDeclareName(t)) ==> !generator_style_name(t.text()),
 {
+            proof { char_class_facts(); }
+
             let declare_name = parser.eat_word();
-            if declare_name.bad_ident()
+            if !chars_first(&declare_name).unwrap_or(' ').is_alphabetic()
+                || chars_any(&declare_name, |c: char| -> (b__: bool) ensures b__ == (!c.is_alphanumeric()) { !c.is_alphanumeric() })
             {
                 return Err(ParseError::InvalidDeclareName(declare_name.to_string()));
             }
@@ -335,6 +443,8 @@ fn try_parse(parser: &mut VParser) -> (r: Result<Option<Self>, ParseError>)
             (r is Ok && r->Ok_0 is Some) ==> final(parser).pos() > old(parser).pos(),
             
             (r is Ok && r->Ok_0 is Some) ==> n_values(r->Ok_0->Some_0) <= final(parser).pos() - old(parser).pos(),
+            
+            r matches Err(ParseError::InvalidDeclareName(t)) ==> !generator_style_name(t.text()),
 {
             let field_type= parser.peek_word().to_lowercase();
             let field_type = match field_type.kind() {
@@ -465,13 +575,17 @@ fn parse_field_list(parser: &mut VParser) -> (r: Result<Vec<Field>, ParseError>)
         final(parser).pos() >= old(parser).pos(),
         
         r is Ok ==> r->Ok_0@.len() <= final(parser).pos() - old(parser).pos(),
+        
+        r matches Err(ParseError::InvalidDeclareName(t)) ==> !generator_style_name(t.text()),
 {
+        proof { char_class_facts(); }
+
         let mut fields = Vec::<Field>::new();
         loop 
             invariant
                 
                 parser.wf(), parser.len() == old(parser).len(),
-                parser.pos() >= old(parser).pos(),
+                parser.pos() >= old(parser).pos(), char_facts(),
                 
                 fields@.len() <= parser.pos() - old(parser).pos(),
             decreases
